@@ -718,6 +718,42 @@ func c06(r *mon.Run) {
 			}
 			c06CaseExpr(r, t, rl, "results-of-earlier-searches-as-documents", i, resExprs[i%len(resExprs)], mk, i%2 == 1)
 		}}
-	r.Exec(fm, sd, rnd, wr, xd, emb, nlw, pw, hw, allw, resw)
+	// a compiled expression searching ITS OWN earlier result (the caller keeps what it got and asks again): what the expression
+	// remembers about a list it built last time gives it no right to it
+	ownExprs := []string{"reverse(@)", "sort(@)", "@", "to_array(@)", "[*]", "[::-1]", "map(&@, @)", "not_null(@)", "sort_by(@, &@)", "[?@]", "[]", "[1:]", "reverse(sort(@))", "sort(reverse(@))", "[@, @][]", "not_null(z, @)", "@ || `[]`", "reverse(to_array(@))", "sort_by(reverse(@), &@)", "merge(@)", "values(@)", "keys(@)", "*"}
+	ownDocs := []string{`[3,1,2,5,4]`, `["b","a","c"]`, `[[2],[1],[3]]`, `{"k":[3,1,2],"j":"x"}`, `[{"n":2},{"n":1}]`}
+	ownw := mon.Workload{Name: "a-compiled-expression-searching-its-own-earlier-result", N: len(ownExprs) * len(ownDocs), Serial: true, Batch: 50,
+		Describe: func(i int) string { return ownExprs[i/len(ownDocs)] + " on " + ownDocs[i%len(ownDocs)] + " and then on its own result" },
+		Do: func(i int, t *mon.Tally) {
+			expr := ownExprs[i/len(ownDocs)]
+			jp, co := apiCompile(expr)
+			if co.Panicked || co.Err != nil {
+				r.Inconclusive("C06 workload expression does not compile: " + expr)
+				return
+			}
+			first := apiJP(jp, withSpare(docs.J(ownDocs[i%len(ownDocs)])))
+			t.Eval()
+			if first.Panicked || first.Err != nil || first.V == nil {
+				return
+			}
+			doc := first.V
+			for round := 0; round < 3; round++ {
+				shown := clipStr(mon.Snapshot(doc), 400)
+				o, changed := searchWatched(expr, jp, doc)
+				t.Eval()
+				rep := rl.Grown()
+				if o.Panicked || changed || rep != "" {
+					r.Violate(&mon.Violation{Workload: "a-compiled-expression-searching-its-own-earlier-result", Index: i, API: "Compile+Search", Expr: expr, DocDesc: "the value the same compiled expression returned before: " + shown,
+						Expected: "the document (the caller's copy of the earlier result) deep-equal to what it was, no write to it", Observed: o.String() + "; document afterwards: " + clipStr(mon.Snapshot(doc), 400), Detail: clipStr(rep, 3000), Class: "a compiled expression writes to a result it handed out earlier"})
+					return
+				}
+				if o.Err != nil || o.V == nil {
+					break
+				}
+				doc = o.V
+			}
+			t.Nontrivial("own:" + strconv.Itoa(i))
+		}}
+	r.Exec(fm, sd, rnd, wr, xd, emb, nlw, pw, hw, allw, resw, ownw)
 	r.Extra["race_log_active"] = rl != nil
 }
